@@ -233,7 +233,7 @@ def group_add_remove(ck, v6, preset):
     src = harness.Src()
     R = build_add_remove(ck, v6, preset, src)
     tag = f"{'v6' if v6 else 'v4'}[{preset}]"
-    rp = harness.make_replayer(ck, "security", "add_remove", lambda s, obs: build_add_remove(ck, v6, preset, s, obs)["goals"], params)
+    rp = harness.make_replayer(ck, "security", "add_remove", lambda s, obs: build_add_remove(ck, v6, preset, s, obs), params)
     ck.register_src("add_remove", params, src)
     for g, f in R["goals"].items():
         ck.prove(f"{tag}/{g}", R["eng"], R["hyps"], f, on_sat=rp, meta={"goal": g})
@@ -288,7 +288,7 @@ def build_analyze(ck, src, obs=None):
 def group_analyze(ck):
     src = harness.Src()
     R = build_analyze(ck, src)
-    rp = harness.make_replayer(ck, "security", "analyze", lambda s, obs: build_analyze(ck, s, obs)["goals"], {})
+    rp = harness.make_replayer(ck, "security", "analyze", lambda s, obs: build_analyze(ck, s, obs), {})
     ck.register_src("analyze", {}, src)
     for g, f in R["goals"].items():
         ck.prove(g, R["eng"], R["hyps"], f, on_sat=rp, meta={"goal": g})
@@ -326,7 +326,7 @@ def replay(path):
 def _rebuild(ck, driver, params):
     if driver == "add_remove":
         return lambda s, obs: build_add_remove(ck, params["v6"], params["preset"], s, obs)["goals"]
-    return lambda s, obs: build_analyze(ck, s, obs)["goals"]
+    return lambda s, obs: build_analyze(ck, s, obs)
 
 
 REBUILD = _rebuild
